@@ -166,7 +166,15 @@ func runActivation(rc *core.RunCtx) {
 			for _, nd := range live {
 				before[nd.id] = nd.spawns[id]
 			}
-			got := by.c.Activate(k, hcluster.NewActivationConfig().WithID(x).WithSelectMemberFunc(selectRule(r)))
+			// a config that did not come from the constructor: no select function, empty region
+			zeroCfg := g.Bool(0.12)
+			var got *actor.PID
+			if zeroCfg {
+				rc.Scen("op%d: (zero-value ActivationConfig: the default selection applies, any capable member may be chosen)", op)
+				got = by.c.Activate(k, hcluster.ActivationConfig{}.WithID(x))
+			} else {
+				got = by.c.Activate(k, hcluster.NewActivationConfig().WithID(x).WithSelectMemberFunc(selectRule(r)))
+			}
 			settle()
 			_, dup := m.active[id]
 			switch {
@@ -185,6 +193,14 @@ func runActivation(rc *core.RunCtx) {
 				}
 			default:
 				sel := capable[(r%3)%len(capable)]
+				if zeroCfg && got != nil {
+					// default (random) selection: whichever capable member was chosen
+					for _, nd := range capable {
+						if nd.addr == got.Address {
+							sel = nd
+						}
+					}
+				}
 				want := sel.addr + "|" + id
 				if pidS(got) != want {
 					rc.Violate("activate-wrong-result", "%s.Activate(%s) returned %s, expected %s (selected member %s)", by.id, id, pidS(got), want, sel.id)
@@ -392,7 +408,36 @@ func runSelfManaged(rc *core.RunCtx) {
 	rc.Nontrivial = true
 }
 
+// late joiner with a large topology (C19): one member holds 3..130 activations
+// when a second member joins; the joiner must learn every one of them.
+func runLateJoiner(rc *core.RunCtx) {
+	g := simrt.G()
+	w := &world{rc: rc}
+	rc.PostRun = crashPost(rc, "C19")
+	simrt.SetBigInboxCap(1024)
+	simnet.Net().MaxLatency = g.Range(0, 3)
+	a := w.startNode(1, "N1", []string{"ka"}, noProvider, true)
+	w.pushMembers()
+	simrt.WaitQuiet(5 * time.Second)
+	n := []int{3, 63, 64, 65, 70, 130}[g.IntN(6)]
+	m := &actModel{active: map[string]string{}}
+	for i := 0; i < n; i++ {
+		x := fmt.Sprintf("p%d", i)
+		a.c.Spawn(w.kindProducer(a, "ka"), "ka", actor.WithID(x))
+		m.active["ka/"+x] = a.addr
+	}
+	simrt.WaitQuiet(5 * time.Second)
+	rc.Scen("N1 holds %d activations; then N2 joins", n)
+	w.startNode(2, "N2", []string{"ka"}, noProvider, true)
+	w.pushMembers()
+	simrt.WaitQuiet(5 * time.Second)
+	w.checkViews(rc, m, []string{"ka"}, "late-join")
+	rc.Nontrivial = true
+}
+
 func init() {
+	core.Register(&core.Profile{Property: "C19", Name: "late-joiner", Weight: 1, Cfg: cfgCluster, Run: runLateJoiner,
+		Doc: "two real nodes; the first holds 3, 63, 64, 65, 70 or 130 activations when the second joins; oracle: the joiner resolves every one of them by id and lists all of them by kind (and so does the first member)"})
 	core.Register(&core.Profile{Property: "C19", Name: "activation", Weight: 4, Cfg: cfgCluster, Run: runActivation,
 		Doc:    "1-4 real nodes (engine + Remote over the simulated network + Cluster/Agent) with arbitrary kind sets and a harness provider; quiescent histories of activate (deterministic select rules) / deactivate / cluster-spawn / join / leave(crash), notification arrival order varied by per-frame latencies and scheduling; oracle: reference model of the activation map: Activate result and placement, exactly one actor spawned (every node's registry and Producer calls inspected), every member's GetActiveByID/ByKind equals the model after each operation, joiners learn everything, a leave purges exactly the hosted activations, Deactivate removes everywhere and stops the actor",
 		Faults: []string{"node-crash"}})
